@@ -32,7 +32,22 @@ def runC14 (op : String) (j : Json) : R Json := do
     let pr ← getNats j "probes"; let peaks ← getNats j "peaks"; let ncw ← getNat j "ncw"
     let impl ← optField j "impl" (asList (asList asNat))
     let model := peaks.map fun pk => nearestSameProbe pos pr pk ncw
+    -- `wfs` (the stored waveforms, sent where they are exact rationals): the EXPORTED table of the model,
+    -- `exportListedChannels` = rows of the model's OWN peak channels (theorem `listed_channels_of_waveform`);
+    -- `listed_impl_spec`: the real rows are admissible rows of THOSE peak channels (not of peaks handed in)
+    let listed : Option (List (List Nat)) ← if hasFld j "wfs" then (do
+        pure (some (exportListedChannels (← getRat3 j "wfs") pos pr ncw))) else pure none
+    let mpeaks : List Nat ← if hasFld j "wfs" then (do pure (peakChannels (← getRat3 j "wfs"))) else pure []
     pure (Json.mkObj [("model", jList jNats model),
+                      ("listed", match listed with | some l => jList jNats l | none => Json.null),
+                      ("listed_spec", match listed with
+                        | some l => Json.bool (l.length == mpeaks.length &&
+                            (mpeaks.zip l).all fun p => nearestOK pos pr p.1 ncw p.2)
+                        | none => Json.null),
+                      ("listed_impl_spec", match listed, impl with
+                        | some _, some rows => Json.bool (rows.length == mpeaks.length &&
+                            (mpeaks.zip rows).all fun p => nearestOK pos pr p.1 ncw p.2)
+                        | _, _ => Json.null),
                       ("model_spec", Json.bool ((peaks.zip model).all fun p => nearestOK pos pr p.1 ncw p.2)),
                       ("impl_spec", match impl with
                         | some rows => Json.bool (rows.length == peaks.length &&
